@@ -430,7 +430,9 @@ func init() {
 					if tn.Generic {
 						nameCls = "generic"
 					}
-					sig := func(what string) string { return fmt.Sprintf("type|%s|%s|%s|sparse-%s", ctx, tn.Kind.Name, nameCls, what) }
+					sig := func(what string) string {
+						return fmt.Sprintf("type|%s|%s|%s|sparse-%s", ctx, tn.Kind.Name, nameCls, what)
+					}
 					switch {
 					case plain.GoKind != tn.Kind.Name:
 						c.Fail(sig("wrong-go-type"), fmt.Sprintf("a value carrying only type %q and its kind's own property yields %s in context %s, the vocabulary assigns %s", tn.Name, plain, ctx, tn.Kind.Name), map[string]any{"type": tn.Name, "context": ctx, "got": plain.String()})
